@@ -233,7 +233,7 @@ def rand_scenario(
         # what kind of object the operation's errors are (drawn last: the scenarios generated before this existed keep their shape)
         "exc_family": rand_exc_family(rng),
         # what kind of object the caller's callbacks are: plain functions, or callable objects that are empty (falsy) and unhashable
-        "cb_shape": "empty" if rng.random() < 0.2 else "plain",
+        "cb_shape": (lambda r_: "empty" if r_ < 0.2 else "stateful" if r_ < 0.4 else "plain")(rng.random()),
         "hook_edits_tags": rng.random() < 0.25,  # the metric hook writes a label into the tags dict it receives
         "warnings_as_errors": rng.random() < 0.15,  # the process escalates warnings to errors
         "op_cm": rng.random() < 0.2,  # the operation works inside a generator-based context manager / ExitStack
